@@ -1261,3 +1261,8 @@ v("setter-subtracts-occupancy-unclamped", [(P, "        self._enough_room._value
 v("P-setter-subtracts-occupancy-clamped", [(P, "        self._enough_room._value = value\n", "        self._enough_room._value = max(0, value - len(self._tasks_running))\n")], {"C01": "any"})
 v("consumer-clamps-num-concurrent", [(P, "        semaphore = Semaphore(num_concurrent)\n", "        num_concurrent = min(num_concurrent, 64)\n        semaphore = Semaphore(num_concurrent)\n")], {"C05": "R05.3"})
 v("apply-spawner-fast-path-outside-the-loop", [(P, "        if kwargs is None:\n            kwargs = {}\n        for i in range(num):", "        if kwargs is None:\n            kwargs = {}\n        if num == 1:\n            coroutine = func(*args, **kwargs)\n            await self._start_task(coroutine, group_name=group_name, end_callback=end_callback, cancel_callback=cancel_callback)\n            return\n        for i in range(num):")], {"C04": "R04.1", "C12": "R12.3"})
+# mini round 20
+v("cancel-skips-ids-already-cancelled", [(P, "        tasks = [self._get_running_task(task_id) for task_id in task_ids]\n", "        tasks = []\n        for task_id in task_ids:\n            try:\n                tasks.append(self._get_running_task(task_id))\n            except AlreadyCancelled:\n                pass\n")], {"C06": "R06.1"})
+v("flush-awaits-cancelled-spawners-one-by-one", [(P, "        await gather(*self._meta_tasks_cancelled, return_exceptions=True)\n        await gather(\n            *self._pop_ended_meta_tasks(),", "        for meta_task in self._meta_tasks_cancelled:\n            await gather(meta_task, return_exceptions=True)\n        await gather(\n            *self._pop_ended_meta_tasks(),")], {"C13": "R13.6", "C12": "R12.8"})
+v("P-flush-awaits-a-copy-of-the-cancelled-spawners-one-by-one", [(P, "        await gather(*self._meta_tasks_cancelled, return_exceptions=True)\n        await gather(\n            *self._pop_ended_meta_tasks(),", "        for meta_task in list(self._meta_tasks_cancelled):\n            await gather(meta_task, return_exceptions=True)\n        await gather(\n            *self._pop_ended_meta_tasks(),")], {"C13": "ok", "C12": "ok"})
+v("close-loops-over-live-spawner-table", [(P, GAC_COLL + GAC_WAIT2, "        for task_set in self._group_meta_tasks_running.values():\n            await gather(*task_set, return_exceptions=return_exceptions)\n")], {"C08": "R08.14"})
